@@ -138,6 +138,7 @@ func (c *Ctx) buildVC(fn *ssa.Function, con *Contract) *Unit {
 	if con != nil && !con.NoFrame && !con.AssignsAll {
 		top := &Frame{u: u, fn: fn}
 		u.frameObligations(top, out, entry, con, params)
+		u.allocFrameObligations(top, out, entry, con)
 	}
 	return u
 }
@@ -162,6 +163,43 @@ func (u *Unit) frameObligations(f *Frame, out, entry *State, con *Contract, para
 		if !allowed && v != u.globalGet(entry, g) {
 			u.oblige(f, out, "frame", "global:"+g.Name(), fmt.Sprintf("(= %s %s)", v, u.globalGet(entry, g)), token.NoPos)
 		}
+	}
+}
+
+// allocFrameObligations: a typed `allocates T, []U` clause promises that no object of any other
+// type comes into existence: every other heap is, above the entry allocation bound, what it was at
+// entry (an allocation initialises the new object, a callee that may allocate the type gives a new
+// heap version: both make the equality unprovable), and no callee may allocate other types.
+func (u *Unit) allocFrameObligations(f *Frame, out, entry *State, con *Contract) {
+	if len(con.AllocTypes) == 0 {
+		return
+	}
+	env := &SpecEnv{u: u, st: entry, old: entry, vars: u.topParams, oldVars: u.topParams, pkg: con.Pkg, fr: &Frame{u: u, fn: u.fn, pure: true}}
+	typed := u.allocHeapNames(con, env)
+	if typed == nil {
+		return
+	}
+	if u.calleeAllocAny {
+		u.oblige(f, out, "alloc-frame", "callee may allocate objects of any type", "false", token.NoPos)
+	}
+	for _, k := range sortedKeys(u.calleeAllocNames) {
+		if _, ok := typed[k]; !ok {
+			u.oblige(f, out, "alloc-frame", "callee allocates in "+k, "false", token.NoPos)
+		}
+	}
+	for _, hn := range sortedKeys(out.heaps) {
+		if strings.HasPrefix(hn, "M_") || strings.HasPrefix(hn, "VM_") || u.heapTy[hn] == nil {
+			continue
+		}
+		if _, ok := typed[hn]; ok {
+			continue
+		}
+		h1 := out.heaps[hn]
+		h0 := u.heapGet(entry, hn, u.heapTy[hn])
+		if h1 == h0 {
+			continue
+		}
+		u.oblige(f, out, "alloc-frame", hn, fmt.Sprintf("(forall ((r Int)) (=> (> r alloc_init) (= (select %s r) (select %s r))))", h1, h0), token.NoPos)
 	}
 }
 
